@@ -28,6 +28,8 @@ pub open spec fn sq(x: real) -> real { x * x }
 pub uninterp spec fn r_gamma(x: real) -> real;
 pub open spec fn r_beta(a: real, b: real) -> real { r_gamma(a) * r_gamma(b) / r_gamma(a + b) }
 pub uninterp spec fn r_binom(n: int, k: int) -> real;
+/// value returned by binom_coeff (its exactness is property C17)
+pub uninterp spec fn binom_fn(n: u64, k: u64) -> u64;
 pub uninterp spec fn r_euler_gamma() -> real;
 #[verifier::external_body]
 pub proof fn ax_gamma_pos(x: real) requires x > 0real ensures r_gamma(x) > 0real {}
@@ -282,6 +284,12 @@ m('binomial', 'Binomial', 'new', ret='r', valid=BV, panics={1: 'REJECT'},
   ensures=['C18.binomial.new.valid:: ' + BV, 'C18.binomial.new.fresh:: r == (Binomial { n: n, p: p })'])
 setter('binomial', 'Binomial', 'set_n', 'n', 'true', '(Binomial { n: n, p: old(self).p })')
 setter('binomial', 'Binomial', 'set_p', 'p', BV, '(Binomial { n: old(self).n, p: p })')
+BINOM_FN = Fn('functions::combinatorial::binom_coeff', ret='r', level='L1', ensures=['A.binom_coeff:: r == binom_fn(n, k)'])
+STUBS.append(BINOM_FN)
+m('binomial', 'Binomial', 'pmf', trait='Discrete', ret='r',
+  requires=['C02.binomial.range:: self.n <= 0x7fff_ffff'],
+  ensures=['C02.binomial.pmf.support:: (k < 0 || k > self.n) ==> rv(r) == 0real',
+           'C02.binomial.pmf.formula:: 0 <= k <= self.n ==> rv(r) == (binom_fn(self.n, k as u64) as real) * r_powi(rv(self.p), k as int) * r_powi(1real - rv(self.p), self.n - k)'])
 m('binomial', 'Binomial', 'mean', trait='Mean', ret='r', ensures=['C02.binomial.mean:: rv(r) == (self.n as real) * rv(self.p)'])
 m('binomial', 'Binomial', 'var', trait='Variance', ret='r',
   ensures=['C02.binomial.var:: rv(r) == (self.n as real) * rv(self.p) * (1real - rv(self.p))'])
